@@ -92,9 +92,18 @@ class Prover:
     # ---- second opinions ----
     def _cross(self, smt2, expect, label):
         self.cross_checked += 1
-        for name, res in (("z3-4.8.12", run_z3_binary(smt2)), ("cvc5-wheel", run_cvc5_wheel(smt2))):
-            if res in ("sat", "unsat") and res != expect:
-                self.cross_disagree.append({"label": label, "z3": expect, name: res})
+        if not hasattr(self, "cross_stats"):
+            self.cross_stats = {}
+        for name, res in (("z3-4.8.12", run_z3_binary(smt2)), ("cvc5-1.4.0", run_cvc5_wheel(smt2))):
+            st = self.cross_stats.setdefault(name, {"agree": 0, "inconclusive": 0, "disagree": 0})
+            if res in ("sat", "unsat"):
+                if res != expect:
+                    st["disagree"] += 1
+                    self.cross_disagree.append({"label": label, "z3-5.1.0": expect, name: res})
+                else:
+                    st["agree"] += 1
+            else:
+                st["inconclusive"] += 1
 
     def stats(self):
         return {
@@ -104,6 +113,7 @@ class Prover:
             "unknown": self.unknown,
             "solver_s": round(self.secs, 3),
             "cross_checked": self.cross_checked,
+            "second_opinions": getattr(self, "cross_stats", {}),
             "cross_disagreements": self.cross_disagree,
         }
 
